@@ -76,9 +76,6 @@ fn c17_priority_selection() { check_priority(vec![any_frame(), any_frame()]); }
 fn c17_window_update_selection_3() { check_window_update(vec![any_frame(), any_frame(), any_frame()]); }
 #[kani::proof]
 #[kani::unwind(8)]
-fn c17_settings_selection_3() { check_settings(vec![any_frame(), any_frame(), any_frame()]); }
-#[kani::proof]
-#[kani::unwind(8)]
 fn c17_priority_selection_3() { check_priority(vec![any_frame(), any_frame(), any_frame()]); }
 
 // ---- payload decoders, bounded cross-check (unbounded proof: Verus unit c17_payloads): every length 0..12
